@@ -63,12 +63,16 @@ func (r *EntityLocal) AddFeature(f api.FeatureLocalInterface) {
 // either returns an existing feature or creates a new one
 // for a given entity, featuretype and role
 func (r *EntityLocal) GetOrAddFeature(featureType model.FeatureTypeType, role model.RoleType) api.FeatureLocalInterface {
-	if f := r.FeatureOfTypeAndRole(featureType, role); f != nil {
-		return f
-	}
-
+	// look up and create under the same lock, otherwise two concurrent
+	// calls can both miss the feature and create it twice
 	r.mux.Lock()
 	defer r.mux.Unlock()
+
+	for _, f := range r.features {
+		if f.Type() == featureType && f.Role() == role {
+			return f
+		}
+	}
 
 	f := NewFeatureLocal(r.NextFeatureId(), r, featureType, role)
 
